@@ -306,6 +306,12 @@ def check_c16(tier):
     routes = ["import", "insert", "fs"]
     norders = 1 if tier == "quick" else 2
     jobs = []
+    # "every permutation of load/insert order": the tiny library (seed 1) of 4 [5] notes in all 24 [120] orders
+    tiny = 4 if tier == "quick" else 5
+    li_tiny = len(libs)
+    for perm in range(24 if tiny == 4 else 120):
+        for r in ("insert", "fs", "import"):
+            jobs.append((li_tiny, 1, tiny, 1 + perm % 3, r, perm))
     for li, (s, n) in enumerate(libs):
         for t in threads:
             for r in routes:
